@@ -112,7 +112,7 @@ CHECKS = {
         technique="Lean 4 proof (identifier codes ~ signals, bit-range packing, keyword tables, flattening rule) + differential run of generated headers against the byte-level Lean model of the header reader and an abstract declaration interpreter",
         text="Lean theorems C09_share_iff (variables share a signal exactly when they share an identifier code: id_to_int is injective and the hashed map numbers distinct codes distinctly, for every declaration list), "
              "C09_range_parse / C09_single_parse (for EVERY base name, any spaces before / after the bracket and any decimal bounds with optional minus sign, extract_suffix_index returns the name before the range and VarIndex::new(msb, lsb)), "
-             "C09_index_roundtrip / C09_index_single (VarIndex packing returns the declared bounds, negative ones included, whenever msb-lsb fits an i32), C09_width_zero, C09_keywords_unique (generated tables), "
+             "C09_array_scopes (parse_name: a variable written `base [g1] .. [gn] [msb:lsb]` — any spaces in front of each group, n >= 1 — is the variable `[gn]` with that bit range inside the array scopes `base`, `[g1]`, .., `[g(n-1)]`, outermost first; by induction over the group list), C09_index_roundtrip / C09_index_single (VarIndex packing returns the declared bounds, negative ones included, whenever msb-lsb fits an i32), C09_width_zero, C09_keywords_unique (generated tables), "
              "C09_scope_flatten, C09_date_verbatim. The composition text -> tree is differential: headers are generated twice, as an abstract declaration list and as text (random white space incl. tabs / CRLF, "
              "glued / split timescale, 0..3 bracket groups, negative and spaced ranges, widths 0..4096, dense / sparse / long / wrapping id codes, GTKWave-nvc attributes 02/03/04, re-opened and empty scopes, both option values); "
              "the real read_header, the byte-level Lean model (read_command, find_tokens, parse_name, extract_suffix_index, attribute stack, id-map switch, pointer-level builder) and the declaration list interpreted on the "
